@@ -108,6 +108,16 @@ func ExprString(e Expr) string {
 		return "exists(" + ExprString(x.P) + ")"
 	case Read:
 		return "read(" + ExprString(x.P) + ")"
+	case App:
+		parts := []string{}
+		for _, c := range x.Calls {
+			name := c.Name
+			if c.Literal {
+				name = QuoteString(StrLit{V: c.Name, Raw: c.Raw})
+			}
+			parts = append(parts, "@"+name+"("+exprList(c.Args)+")")
+		}
+		return strings.Join(parts, " | ")
 	case Input:
 		if x.Prompt == nil {
 			return "input()"
